@@ -98,3 +98,8 @@ package repl
 //@ func repl.setHook
 //@   property C20
 //@   on-call updateConfigFile own-name-only: !contains(key, ":")
+// ... and every change of a printer setting is recorded (and handed to the
+// writer), also while the configuration file is being loaded: what a restarted
+// session knows about the saved settings is exactly what it recorded then.
+//@   count-calls updateConfigFile
+//@   ensures printer-settings-always-recorded: (!contains(key, ":") && hasprefix(key, "*print-")) ==> $ncall_updateConfigFile == 1
